@@ -113,7 +113,7 @@ func mustReject(t *rapid.T, s *rt.Sub, iss *type3.RateLimitedIssuer, req []byte,
 
 func TestIssuer(t *testing.T) {
 	s := rt.S("issuer").SetRule("honest encoded requests for issuers with 1..3 registered origins (sometimes incl. the empty name), then: single-bit flips (positions stratified by field), unregistered origin variants (fresh, prefix, extension, case, NUL-padding look-alikes), request encrypted to another issuer's name key, signature by another key over the same bytes, signature stripped, bytes appended, truncation; plus requests CRAFTED with go-hpke and crypto/ecdsa directly (attacker's own signing key): valid (health), request key in the AAD differs from the wire, name-key id mismatch, unregistered origin inside, signature over other bytes, signature by a key other than request_key, undecodable request key, truncated inner request. oracle: every such request => error and no output; honest and crafted-valid requests => served. non-trivial = every transformed request; distinct by (request, class)")
-	rt.Check(t, 60, 3000, func(t *rapid.T) {
+	rt.Check(t, 60, 16000, func(t *rapid.T) {
 		defer rt.Entropy(gen.Seed().Draw(t, "entropy"))()
 		sess, err := gen.NewSession(t, 3, gen.SessionOpts{RKeyIdx: -1})
 		if err != nil {
@@ -287,7 +287,7 @@ func honest2inner(sess *gen.Session) []byte {
 // TestExhaustiveBitFlips: every bit of an honest request (thorough: several requests).
 func TestExhaustiveBitFlips(t *testing.T) {
 	s := rt.S("exhaustive-bitflips").SetRule("every single-bit flip of a drawn honest request (quick: every 5th bit of one request; thorough: all bits of 10 requests) must be refused; distinct by construction")
-	rt.Check(t, 1, 10, func(t *rapid.T) {
+	rt.Check(t, 1, 48, func(t *rapid.T) {
 		defer rt.Entropy(gen.Seed().Draw(t, "entropy"))()
 		sess, err := gen.NewSession(t, 3, gen.SessionOpts{RKeyIdx: -1})
 		if err != nil {
